@@ -16,7 +16,9 @@ EXTENDS FxMatrix
 
 Ang(c, s, d) == <<c, s, d>>
 AngleTable == << Ang(1, 0, 1), Ang(0, 1, 1), Ang(-1, 0, 1), Ang(0, -1, 1),
-                 Ang(3, 4, 5), Ang(4, -3, 5), Ang(-3, 4, 5), Ang(5, 12, 13), Ang(-5, -12, 13), Ang(8, 15, 17) >>
+                 Ang(3, 4, 5), Ang(4, -3, 5), Ang(-3, 4, 5), Ang(5, 12, 13), Ang(-5, -12, 13), Ang(8, 15, 17),
+                 \* colatitudes inside the polar caps (172.4 and 7.6 degrees) and just outside the southern one (171.2)
+                 Ang(-112, 15, 113), Ang(112, 15, 113), Ang(-84, 13, 85) >>
 DirTable == << <<0, 0, 1, 1>>, <<1, 2, 2, 3>>, <<2, 3, 6, 7>>, <<2, -1, 2, 3>>, <<-2, 6, 3, 7>>, <<4, 4, 7, 9>> >>
 
 UnitAngle(a) == a[1] * a[1] + a[2] * a[2] = a[3] * a[3]
